@@ -1309,6 +1309,17 @@ func c03Publisher(c *Ctx, sign *Fn) {
 		// the root was read under the publisher's lock
 		root := b["root"]
 		_, isRoot := Match(Field("root", Any()), root)
+		if !isRoot {
+			// read through an accessor: every value it can return is the root field
+			if ls := c.Leaves(root, cs.In); len(ls) > 0 {
+				isRoot = true
+				for _, l := range ls {
+					if _, m := Match(Field("root", Any()), l); !m {
+						isRoot = false
+					}
+				}
+			}
+		}
 		c.Check(isRoot, "C03.V5-publisher-signs-root", k+" › signs current root", cs.In.Pos(), "encodes a head for p.root, p.topic, p.privKey", "head response is not built from the publisher's root/topic/key: "+data.String())
 		_, g := c.Guarded(cs.In, EqNil(Extract("1", Is(b["enc"]))), true)
 		c.Check(g, "C03.V5-publisher-signs-root", k+" › written only when signing succeeded", cs.In.Pos(), "write dominated by err == nil of the signed-head construction", "response written although building the signed head failed")
